@@ -24,10 +24,10 @@ package publicationpb
 //@ func (*ModelServer).ListPublications(ctx, request) (resp, err)
 //@   requires recv != nil && recv.model != nil && request != nil
 //@   let all := lastcall(ListPublications)
-//@   ensures [negative] request.PageSize < 0 ==> err != nil
+//@   ensures [negative] old(request.PageSize) < 0 ==> err != nil
 //@   ensures [total] err == nil && len(all) <= 2147483647 ==> resp.TotalSize == len(all)
 //@   ensures [page] err == nil ==> 0 <= nextIndex && nextIndex <= upperBound && upperBound <= len(all) && resp.Publications == all[nextIndex:upperBound]
 //@   ensures [start] err == nil ==> (lastKey == "" ==> nextIndex == 0) && (forall i int :: 0 <= i && i < nextIndex ==> all[i].Id <= lastKey) && (forall i int :: nextIndex <= i && i < len(all) ==> lastKey == "" || all[i].Id > lastKey)
-//@   ensures [size] err == nil ==> 1 <= pageSize && pageSize <= 1000 && (request.PageSize == 0 ==> pageSize == 50) && upperBound - nextIndex <= pageSize && (upperBound == len(all) || upperBound - nextIndex == pageSize)
+//@   ensures [size] err == nil ==> 1 <= pageSize && pageSize <= 1000 && (old(request.PageSize) == 0 ==> pageSize == 50) && upperBound - nextIndex <= pageSize && (upperBound == len(all) || upperBound - nextIndex == pageSize)
 //@   ensures [last-page] err == nil && nextIndex + pageSize > len(all) ==> resp.NextPageToken == ""
 //@   replay PublicationList(request.PageSize)
